@@ -104,7 +104,15 @@ def main():
     props = opt("--props", ",".join(PROPS)).split(",")
     only = opt("--only", None)
     tier = opt("--tier", "quick")
-    todo = [p for p in patches() if only is None or only in p[0]]
+    import re
+    rx = opt("--match", None)
+    todo = [p for p in patches() if (only is None or only in p[0]) and (rx is None or re.search(rx, p[0]))]
+    if "--skip-done" in a:
+        try:
+            done = {r["name"]: r for r in json.load(open(os.path.join(VERIF, "selftest.json")))}
+        except Exception:  # noqa
+            done = {}
+        todo = [p for p in todo if not all(q in done.get(p[0], {}).get("results", {}) for q in props)]
     declared_only = "--declared-only" in a
     results = []
     with ThreadPoolExecutor(max_workers=jobs) as ex:
